@@ -141,6 +141,11 @@ def handle (req : Json) : Except String Json := do
     | none => pure (Json.mkObj [("ok", true), ("valid", false), ("int", false), ("num", "0"), ("den", "1")])
     | some l => pure (Json.mkObj [("ok", true), ("valid", true), ("int", l.isInt),
         ("num", Json.str (toString l.value.num)), ("den", Json.str (toString l.value.den))])
+  | "strlit" => do
+    let lex ← getStr req "lexeme"
+    match strLitValue lex with
+    | none => pure (Json.mkObj [("ok", true), ("valid", false), ("value", Json.null)])
+    | some v => pure (Json.mkObj [("ok", true), ("valid", true), ("value", Json.str v)])
   | o => throw s!"unknown-op {o}"
 
 def main : IO Unit := serve handle
